@@ -1354,6 +1354,26 @@ def c17_families(tier, seed, ids=None):
         keep = [x for x in rd if len(x["meta"]["read"][0]) == 4 and len(x["meta"]["read"][0][1]) > 4000 and x["meta"]["read"][1] == 4]
         rd = keep + [x for x in rd if x["meta"]["read"][2] == "failing-read-statement" and x["meta"]["read"][1] >= 2 and len(x["meta"]["read"][0]) in (2, 3, 5)] + rnd.sample(rd, 80)
     out.append(("sequences of read() against piped input", rd, ("value",)))
+    # calls of built-ins with an effect (read consumes a line, write prints) that are written twice in one expression: each occurrence is
+    # its own call, whatever the expression around them looks like
+    tw = []
+    R = lambda: call("read")
+    AR = lambda: call("aton", call("read"))
+    shapes = {"sum-then-more": bin_("+", bin_("+", R(), R()), St("|")), "three": bin_("+", bin_("+", R(), R()), R()), "length-of-sum": un("#", bin_("+", R(), R())), "element": lst([bin_("+", R(), R())]),
+              "compare": bin_("==", R(), R()), "compare-then-and": bin_("&", bin_("==", R(), R()), Bo(True)), "numbers": bin_("+", bin_("*", AR(), AR()), I(1)), "numbers-minus": bin_("-", bin_("-", AR(), AR()), AR()),
+              "right-nested": bin_("+", St("x"), bin_("+", R(), R())), "argument": call("id", bin_("+", bin_("+", R(), R()), St("!"))), "pair": lst([R(), R()]),
+              "writes": bin_("==", bin_("==", call("write", St("w")), call("write", St("w"))), Bo(True)), "toa-twice": bin_("+", bin_("+", call("toa", I(1)), call("toa", I(1))), St("."))}
+    for sname, e in shapes.items():
+        for where in ("top", "fn", "loop"):
+            inp = ["1\n", "2\n", "3\n", "4\n", "5\n", "6\n", "7\n", "8\n"]
+            if where == "top":
+                items = [IDF, e, call("read")]
+            elif where == "fn":
+                items = [IDF, assign("g", fn([], e)), call("g"), call("g"), call("read")]
+            else:
+                items = [IDF, assign("acc", lst([])), fr(["q"], [call("fromto", I(0), I(2))], assign("acc", bin_("+", N("acc"), lst([e])))), N("acc"), call("read")]
+            tw.append(mk(ids, items, {"twice": sname, "where": where, "read": [inp, 2, "twice"]}, stdin=inp))
+    out.append(("calls of read / write written twice in one expression", tw, ("value",)))
     return out
 
 
